@@ -295,7 +295,11 @@ func c06Apply(base *c06Base, muts []c06Mut) []byte {
 				case 1:
 					binary.LittleEndian.PutUint64(body, uint64(r.ID+1000+int64(m.Len)))
 				case 3:
-					binary.LittleEndian.PutUint64(body, uint64(r.ID+2000+int64(m.Len)))
+					nid := r.ID + 2000 + int64(m.Len)
+					if m.Len%2 == 1 { // sorts before every genuine transaction: its failure aborts the rest
+						nid = r.ID - 5000 - int64(m.Len)
+					}
+					binary.LittleEndian.PutUint64(body, uint64(nid))
 					if len(body) > 21 {
 						body[19] = 'Z' // first byte of the key path: S0/... -> Z0/... (no such file)
 					}
@@ -700,7 +704,7 @@ func c06Run(raw json.RawMessage) (res Result, err error) {
 	prunes := false
 	for i, id := range fr.pruneAfter {
 		for _, q := range req {
-			if fr.pruneOff[i] >= d && id >= q {
+			if fr.pruneOff[i]+11 > d && id >= q { // the record reaches into the damaged part
 				prunes = true
 			}
 		}
